@@ -1529,6 +1529,9 @@ class Interp(object):
                 return self.binop(ast.Mult, -1, v)
             if isinstance(n.op, ast.UAdd):
                 return v
+            if isinstance(n.op, ast.Invert) and getattr(
+                    v, 'is_array_value', False):
+                return self.invert_array(v)
         if isinstance(n, ast.BoolOp):
             # value semantics of and/or
             last = None
